@@ -20,6 +20,11 @@ def run(ctx):
         try: e['obs'] = render(fn())
         except Exception as ex: e['raised'] = type(ex).__name__
         ev.append(e); return e
+    # the exported CRC-32 tables used through the generic functions, before any CRC-32 helper has run in this process
+    d0 = rb(11)
+    for pos in (0, 5, 10):
+        rec(dict(op='back', P=W(0xEDB88320, 2), init=W(0xffffffff, 2), data=B(d0), pos=pos, width=32), lambda pos=pos: C.crc_back_pos(d0, pos, C.TABLE32_1b, 0xffffffff, C.crc(d0, C.TABLE32_1, 0xffffffff, 0xffffffff)), lambda r: W(r, 2))
+    ctx.mark(('exported tables first',))
     datas = [b'', b'\x00', b'\xff', b'a', b'abc', b'123456789', bytes(32), b'\xff' * 32] + [rb(n) for n in (list(range(1, 41, 3 if not big else 1)) + [64, 100, 255, 256, 300])] + ([rb(rnd.randrange(300)) for _ in range(60)] if big else [])
     for d in datas:
         rec(dict(op='crc32', data=B(d)), lambda d=d: C.crc32(d), lambda r: W(r, 2)); ctx.mark(('crc32', len(d), d[:4].hex()))
@@ -65,6 +70,15 @@ def run(ctx):
         rec(dict(op='fix', data=B(d), pos=pos, target=W(t, 2)), lambda d=d, t=t, pos=pos: C.crc32_fix_pos(d, pos, t), lambda r: B(r)); ctx.mark(('fixzero', q))
         d2 = d[:-4]; want2 = d2 + patch[::-1]; t2 = zlib.crc32(want2 + b'')
         rec(dict(op='fix', data=B(d2 + b'abcd'), pos=len(d2), target=W(zlib.crc32(d2 + patch), 2)), lambda d2=d2, patch=patch: C.crc32_fix(d2 + b'abcd', zlib.crc32(d2 + patch)), lambda r: B(r))
+    # prefixes that leave the running register at 0 / at all ones (crc32 of the prefix = 0xffffffff / 0) right where the patch goes
+    for q in range(4 if big else 2):
+        pre = rb(3 * q); reg = zlib.crc32(pre) ^ 0xffffffff
+        for want_reg in (0, 0xffffffff):
+            pre2 = pre + (reg ^ want_reg).to_bytes(4, 'little')              # four bytes that steer the register to want_reg
+            d = pre2 + rb(4) + rb(q + 1); t = rnd.getrandbits(32)
+            rec(dict(op='fix', data=B(d), pos=len(pre2), target=W(t, 2)), lambda d=d, t=t, p=len(pre2): C.crc32_fix_pos(d, p, t), lambda r: B(r)); ctx.mark(('fix-register', want_reg, q))
+            rec(dict(op='crc32', data=B(pre2)), lambda x=pre2: C.crc32(x), lambda r: W(r, 2))
+            rec(dict(op='back', P=W(0xEDB88320, 2), init=W(0xffffffff, 2), data=B(d), pos=len(pre2), width=32), lambda d=d, p=len(pre2): C.crc32_back_pos(d, p, C.crc32(d)), lambda r: W(r, 2))
     for d in (rb(8), rb(21)):
         for pos in range(len(d)):
             rec(dict(op='back', P=W(0xEDB88320, 2), init=W(0xffffffff, 2), data=B(d), pos=pos, width=32), lambda d=d, pos=pos: C.crc32_back_pos(d, pos, C.crc32(d)), lambda r: W(r, 2))
